@@ -20,7 +20,7 @@ use crate::{
 /// This type also implements [`Serialize`] and [`Deserialize`], so if you don't
 /// like the cooklang shopping list format you can swap it with any [`serde`]
 /// format.
-#[derive(Debug, Clone, PartialEq, Eq, Serialize, Deserialize, Default)]
+#[derive(Debug, Clone, Serialize, Deserialize, Default)]
 pub struct AisleConf<'a> {
     /// List of categories
     #[serde(borrow)]
@@ -29,6 +29,16 @@ pub struct AisleConf<'a> {
     #[serde(skip)]
     len: std::cell::Cell<usize>,
 }
+
+// `len` is only a capacity hint updated by `ingredients_info`, it must not
+// take part in comparisons.
+impl PartialEq for AisleConf<'_> {
+    fn eq(&self, other: &Self) -> bool {
+        self.categories == other.categories
+    }
+}
+
+impl Eq for AisleConf<'_> {}
 
 /// A category, or aisle
 #[derive(Debug, Clone, PartialEq, Eq, Serialize, Deserialize)]
